@@ -7,7 +7,7 @@
 (* history variable hidden from TLC's fingerprint by VIEW) that the        *)
 (* replayer executes against the real library.                             *)
 (***************************************************************************)
-EXTENDS Wire, Queries, Json
+EXTENDS Wire, Extensions, Json
 
 CONSTANTS Atoms,      \* opaque leaf values, e.g. {<<"v","a1">>, <<"v","a2">>}
           KVs,        \* known-value numbers
@@ -17,6 +17,9 @@ CONSTANTS Atoms,      \* opaque leaf values, e.g. {<<"v","a1">>, <<"v","a2">>}
           Phases,     \* Phases[i] = action families enabled for the i-th call; Len(Phases) bounds the depth
           MaxT,       \* bound on the size of target sets
           ShapeSet,   \* input universe for the "build" call
+          Signers,    \* signing key pair ids
+          Recipients, \* encapsulation key pair ids
+          Policies,   \* SSKR policies
           CfgName
 
 VARIABLES reg, last, hist
@@ -170,6 +173,181 @@ DecodeWireA == \E dst \in Reg, src \in Full : \E w \in {Tagged(reg[src])} \cup M
 DecodeWire2A == \E dst \in Reg, src \in Full : \E w1 \in MutTagged(Tagged(reg[src])) :
               w1[1] = "tag" /\ w1[2] = TagEnvelope /\ \E w \in MutTagged(w1) :
               Call("decode_wire", dst, <<w>>, DecodeTagged(w))
+
+(* ---- salt -------------------------------------------------------------------------*)
+AddSaltA == \E dst \in Reg, src \in Full :
+              Call("add_salt", dst, <<src>>, Ok(AddSaltInstance(reg[src], <<FreshId, 1>>)))
+AddSaltLenA == \E dst \in Reg, src \in Full, n \in {0, 7, 8, 20} :
+              Call("add_salt_with_len", dst, <<src, n>>,
+                   IF n < 8 THEN Err("salt too short") ELSE Ok(AddSaltInstance(reg[src], <<FreshId, 1>>)))
+AddSaltRangeA == \E dst \in Reg, src \in Full, r \in {<<7, 9>>, <<8, 8>>, <<9, 30>>} :
+              Call("add_salt_in_range", dst, <<src, r[1], r[2]>>,
+                   IF r[1] < 8 THEN Err("salt too short") ELSE Ok(AddSaltInstance(reg[src], <<FreshId, 1>>)))
+AddAssertionSaltedA == \E dst \in Reg, src \in Full, p \in Simple, o \in Simple, salted \in BOOLEAN :
+              Call("add_assertion_salted", dst, <<src, p, o, salted>>,
+                   IF salted THEN AddAssertionEnvSalted(reg[src], Assn(p, o), <<FreshId, 1>>)
+                             ELSE Ok(AddAssertion(reg[src], p, o)))
+AddAssertionEnvSaltedA == \E dst \in Reg, src \in Full, ra \in Full, salted \in BOOLEAN :
+              Call("add_assertion_envelope_salted", dst, <<src, ra, salted>>,
+                   IF salted THEN AddAssertionEnvSalted(reg[src], reg[ra], <<FreshId, 1>>)
+                             ELSE AddAssertionEnv(reg[src], reg[ra]))
+SaltFam == AddSaltA \/ AddSaltLenA \/ AddSaltRangeA \/ AddAssertionSaltedA \/ AddAssertionEnvSaltedA
+
+(* ---- signatures ---------------------------------------------------------------------*)
+Metas == {{}, {Assn(KV(KvNote), Str("n"))}}
+(* a second signature by a key that has signed already is left out: with a deterministic
+   scheme it is byte-identical to the first and the assertion is deduplicated *)
+AddSignatureA == \E dst \in Reg, src \in Full, s \in Signers, meta \in Metas :
+              /\ ~HasSignatureFrom(reg[src], s)
+              /\ Call("add_signature", dst, <<src, s, meta>>, Ok(AddSignature(reg[src], s, FreshId, meta)))
+SignA == \E dst \in Reg, src \in Full, s \in Signers :
+              Call("sign", dst, <<src, s>>, Ok(Sign(reg[src], s, FreshId)))
+(* adversarial 'signed' assertions, assembled from parts by someone holding key s *)
+ForgedSigned(e, kind, s, s2, c) ==
+  LET good == SigLeaf(<<c, 1>>, s, Dg(Subject(e)))
+      meta == {Assn(KV(KvNote), Str("n"))}
+      wrapped == Wrap(FoldAdd(good, meta)) IN
+  CASE kind = "other_subject"    -> AddAssertion(e, KV(KvSigned), SigLeaf(<<c, 1>>, s, Absent))
+    [] kind = "unsigned_wrapper" -> AddAssertion(e, KV(KvSigned), wrapped)
+    [] kind = "foreign_wrapper"  -> AddAssertion(e, KV(KvSigned),
+                                       AddAssertion(wrapped, KV(KvSigned), SigLeaf(<<c, 2>>, s2, Dg(wrapped))))
+    [] kind = "two_outer"        -> AddAssertion(e, KV(KvSigned),
+                                       AddAssertion(AddAssertion(wrapped, KV(KvSigned), SigLeaf(<<c, 2>>, s, Dg(wrapped))),
+                                                    KV(KvSigned), SigLeaf(<<c, 3>>, s2, Dg(wrapped))))
+    [] kind = "junk"             -> AddAssertion(e, KV(KvSigned), Str("junk"))
+    [] kind = "junk_outer"       -> AddAssertion(e, KV(KvSigned), AddAssertion(wrapped, KV(KvSigned), Str("junk")))
+    [] kind = "inner_other"      -> LET w2 == Wrap(FoldAdd(SigLeaf(<<c, 1>>, s, Absent), meta)) IN
+                                    AddAssertion(e, KV(KvSigned),
+                                       AddAssertion(w2, KV(KvSigned), SigLeaf(<<c, 2>>, s, Dg(w2))))
+    [] kind = "decorated"        -> Val(AddAssertionEnvSalted(e, Assn(KV(KvSigned), good), <<c, 9>>))
+ForgeKinds == {"other_subject", "unsigned_wrapper", "foreign_wrapper", "two_outer", "junk", "junk_outer",
+               "inner_other", "decorated"}
+ForgeSignedA == \E dst \in Reg, src \in Full, kind \in ForgeKinds, s \in Signers :
+              \E s2 \in Signers \ {s} :
+              Call("forge_signed", dst, <<src, kind, s, s2>>, Ok(ForgedSigned(reg[src], kind, s, s2, FreshId)))
+KeyLists == {<<a>> : a \in Signers} \cup {<<a, b>> : a \in Signers, b \in Signers}
+ObsVerify == \E src \in Full, keys \in KeyLists, th \in 0..3 :
+              /\ th <= Len(keys) + 1
+              /\ Observe("obs_verify", <<src, keys, th>>,
+                    [ each |-> [i \in 1..Len(keys) |-> HasSignatureFrom(reg[src], keys[i])],
+                      threshold |-> HasSignaturesFromThreshold(reg[src], keys, IF th = 0 THEN Len(keys) ELSE th),
+                      metadata |-> <<"set", {Dg(x) : x \in MetadataFor(reg[src], keys[1])}>>,
+                      verify |-> LET r == Verify(reg[src], keys[1]) IN IF IsOk(r) THEN Ok(Dg(Val(r))) ELSE r ])
+SignatureFam == AddSignatureA \/ SignA
+
+(* ---- recipients, seal -------------------------------------------------------------------*)
+CK(id) == "ck" \o ToString(id)
+RecipientLists == {<<a>> : a \in Recipients} \cup {<<a, b>> : a \in Recipients, b \in Recipients}
+EncryptSubjectToRecipientsA == \E dst \in Reg, src \in Full, rs \in RecipientLists :
+              Call("encrypt_subject_to_recipients", dst, <<src, rs>>,
+                   EncryptSubjectToRecipients(reg[src], rs, CK(FreshId), FreshId))
+EncryptToRecipientA == \E dst \in Reg, src \in Full, r \in Recipients :
+              Call("encrypt_to_recipient", dst, <<src, r>>, Ok(EncryptToRecipient(reg[src], r, CK(FreshId), FreshId)))
+(* add_recipient needs the content key: possible for subjects encrypted under a caller-held key *)
+AddRecipientA == \E dst \in Reg, src \in Full, r \in Recipients, k \in Keys :
+              Call("add_recipient", dst, <<src, r, k>>, Ok(AddRecipient(reg[src], r, k, <<FreshId, 1>>)))
+(* ... or by first opening the envelope as an existing recipient r0 (re-sharing) *)
+ShareWithA == \E dst \in Reg, src \in Full, r0 \in Recipients, r \in Recipients :
+              /\ RecipientUnambiguous(reg[src], r0)
+              /\ LET objs == {x \in RecipientObjects(reg[src]) : IsSealedLeaf(Subject(x)) /\ Subject(x)[2][4] = r0} IN
+                 /\ objs # {}
+                 /\ Call("share_with", dst, <<src, r0, r>>,
+                         Ok(AddRecipient(reg[src], r, Subject(CHOOSE x \in objs : TRUE)[2][5], <<FreshId, 1>>)))
+DecryptSubjectToRecipientA == \E dst \in Reg, src \in Full, r \in Recipients :
+              /\ RecipientUnambiguous(reg[src], r)
+              /\ Call("decrypt_subject_to_recipient", dst, <<src, r>>, DecryptSubjectToRecipient(reg[src], r))
+DecryptToRecipientA == \E dst \in Reg, src \in Full, r \in Recipients :
+              /\ RecipientUnambiguous(reg[src], r)
+              /\ Call("decrypt_to_recipient", dst, <<src, r>>, DecryptToRecipient(reg[src], r))
+SealA == \E dst \in Reg, src \in Full, s \in Signers, r \in Recipients :
+              Call("seal", dst, <<src, s, r>>, Ok(Seal(reg[src], s, r, CK(FreshId), FreshId)))
+UnsealA == \E dst \in Reg, src \in Full, s \in Signers, r \in Recipients :
+              /\ RecipientUnambiguous(reg[src], r)
+              /\ Call("unseal", dst, <<src, s, r>>, Unseal(reg[src], s, r))
+RecipientEncFam == EncryptSubjectToRecipientsA \/ EncryptToRecipientA \/ SealA
+RecipientAddFam == AddRecipientA \/ ShareWithA
+RecipientDecFam == DecryptSubjectToRecipientA \/ DecryptToRecipientA \/ UnsealA
+
+(* ---- SSKR ---------------------------------------------------------------------------------*)
+HonestEncUnder(e, k) == IsEnc(Subject(e)) /\ Subject(e)[3] = k /\ Subject(e)[6] = "ok" /\ Dg(Subject(e)[5]) = Subject(e)[2]
+RECURSIVE SetToSeq(_)
+SetToSeq(S) == IF S = {} THEN << >> ELSE LET x == CHOOSE x \in S : TRUE IN <<x>> \o SetToSeq(S \ {x})
+SskrSplitJoinA == \E dst \in Reg, src \in Full, k \in Keys, policy \in Policies :
+              /\ HonestEncUnder(reg[src], k)
+              /\ \E S \in SUBSET AllMembers(policy) :
+                   LET c == FreshId
+                       envs == [i \in 1..Cardinality(S) |->
+                                  LET x == SetToSeq(S)[i] IN ShareEnvelope(reg[src], c, x[1], x[2], policy, k)] IN
+                   Call("sskr_split_join", dst, <<src, k, policy, S>>, SskrJoin(envs))
+SskrPickA == \E dst \in Reg, src \in Full, k \in Keys, policy \in Policies :
+              /\ HonestEncUnder(reg[src], k)
+              /\ \E x \in AllMembers(policy) :
+                   Call("sskr_split_pick", dst, <<src, k, policy, x[1], x[2], FreshId>>,
+                        Ok(ShareEnvelope(reg[src], FreshId, x[1], x[2], policy, k)))
+(* another share of the split a register's share came from *)
+SskrPickMoreA == \E dst \in Reg, src \in Full :
+              \E sh \in {Subject(o) : o \in ObjectsForPredicate(reg[src], KV(KvSskrShare))} :
+              /\ IsShareLeaf(sh)
+              /\ \E x \in AllMembers(sh[2][5]) :
+                   /\ <<x[1], x[2]>> # <<sh[2][3], sh[2][4]>>
+                   /\ Call("sskr_pick_more", dst, <<src, sh[2][2], x[1], x[2]>>,
+                           Ok(ShareEnvelope(RemoveAssertion(reg[src], Assn(KV(KvSskrShare), sh)),
+                                            sh[2][2], x[1], x[2], sh[2][5], sh[2][6])))
+SskrJoinRegsA == \E dst \in Reg : \E rs \in {<<a>> : a \in Full} \cup {<<x[1], x[2]>> : x \in {y \in Full \X Full : y[1] # y[2]}} :
+              (* the same share presented twice is outside "a subset of the share envelopes" *)
+              /\ \A i \in 1..Len(rs), j \in 1..Len(rs) : i # j =>
+                    SharesIn(<<reg[rs[i]]>>) \cap SharesIn(<<reg[rs[j]]>>) = {}
+              /\ Call("sskr_join", dst, <<rs>>, SskrJoin([i \in 1..Len(rs) |-> reg[rs[i]]]))
+
+(* ---- proofs ----------------------------------------------------------------------------------*)
+ProofA == \E dst \in Reg, src \in Full :
+              \E T \in {S \in SUBSET Targets(reg[src]) : S # {} /\ Cardinality(S) <= MaxT} :
+              LET p == ProofContainsSet(reg[src], T) IN
+              Call("proof_contains_set", dst, <<src, T>>, IF p = Nothing THEN Err("none") ELSE Ok(p))
+(* a verifier holding only the root digest of r1 is shown r2 as a proof for T *)
+ObsConfirm == \E r1 \in Full, r2 \in Full :
+              \E T \in {S \in SUBSET (Targets(reg[r1]) \cup AllDigests(reg[r2])) : S # {} /\ Cardinality(S) <= MaxT} :
+              Observe("obs_confirm", <<r1, r2, T>>,
+                      [ accept |-> (reg[r2] = ProofContainsSet(reg[r1], T)) \/ ConfirmContainsSet(reg[r1], T, reg[r2]),
+                        produced |-> reg[r2] = ProofContainsSet(reg[r1], T),
+                        nested |-> NestedTargets(reg[r1], T) ])
+
+(* ---- types and attachments ---------------------------------------------------------------------*)
+TypeVals == Simple \cup {Str("T")}
+AddTypeA == \E dst \in Reg, src \in Full, t \in TypeVals : Call("add_type", dst, <<src, t>>, Ok(AddType(reg[src], t)))
+ObsTypes == \E src \in Full, t \in TypeVals :
+              Observe("obs_types", <<src, t>>,
+                      [ types |-> <<"set", {Dg(x) : x \in Types(reg[src])}>>,
+                        has |-> HasType(reg[src], t),
+                        get |-> LET r == GetType(reg[src]) IN IF IsOk(r) THEN Ok(Dg(Val(r))) ELSE r ])
+Vendors == {"v1", "v2"}
+Conforms == {NoStr, "c1", "c2"}
+AddAttachmentA == \E dst \in Reg, src \in Full, rp \in Full, v \in Vendors, c \in Conforms :
+              Call("add_attachment", dst, <<src, rp, v, c>>, AddAssertionEnv(reg[src], AttachmentAssn(reg[rp], v, c)))
+(* malformed attachment assertions (one part removed / duplicated / altered) *)
+BadAttachment(payload, kind) ==
+  LET good == AttachmentAssn(payload, "v1", "c1") IN
+  CASE kind = "no_vendor"   -> Assn(KV(KvAttachment), AddAssertion(Wrap(payload), KV(KvConformsTo), Str("c1")))
+    [] kind = "two_vendors" -> Assn(KV(KvAttachment), AddAssertion(good[3], KV(KvVendor), Str("v2")))
+    [] kind = "no_wrap"     -> Assn(KV(KvAttachment), AddAssertion(payload, KV(KvVendor), Str("v1")))
+    [] kind = "extra"       -> Assn(KV(KvAttachment), AddAssertion(good[3], KV(KvNote), Str("n")))
+    [] kind = "two_conforms" -> Assn(KV(KvAttachment), AddAssertion(good[3], KV(KvConformsTo), Str("c2")))
+    [] kind = "vendor_not_string" -> Assn(KV(KvAttachment), AddAssertion(Wrap(payload), KV(KvVendor), KV(1)))
+BadKinds == {"no_vendor", "two_vendors", "no_wrap", "extra", "two_conforms", "vendor_not_string"}
+AddBadAttachmentA == \E dst \in Reg, src \in Full, rp \in Full, kind \in BadKinds :
+              /\ ~IsNode(reg[rp]) /\ ~IsWrap(reg[rp])
+              /\ Call("add_bad_attachment", dst, <<src, rp, kind>>, AddAssertionEnv(reg[src], BadAttachment(reg[rp], kind)))
+AttAnswer(e, v, c) ==
+  LET r == Attachments(e, v, c) IN
+  [ list |-> IF IsOk(r) THEN Ok(<<"set", {Dg(a) : a \in Val(r)}>>) ELSE r,
+    single |-> IF ~IsOk(r) THEN r
+               ELSE IF Val(r) = {} THEN Err("NonexistentAttachment")
+               ELSE IF Cardinality(Val(r)) > 1 THEN Err("AmbiguousAttachment")
+               ELSE Ok(Dg(CHOOSE a \in Val(r) : TRUE)),
+    parts |-> IF IsOk(r) THEN <<"set", {<<Dg(a), Dg(Subject(a[3])[2]), AttVendor(a), AttConform(a)>> : a \in Val(r)}>>
+              ELSE <<"set", {}>> ]
+ObsAttachments == \E src \in Full, v \in Vendors \cup {NoStr}, c \in Conforms :
+              Observe("obs_attachments", <<src, v, c>>, AttAnswer(reg[src], v, c))
 
 (* ---- observations ------------------------------------------------------------------*)
 ObsStructure == \E src \in Full : Observe("obs_structure", <<src>>, StructureFacts(reg[src]))
